@@ -574,8 +574,21 @@ func doStress(n, rounds int) string {
 	return "ok"
 }
 
+// exec runs one op. After every op that lets the oracle move, the property oracle is evaluated on everything the
+// implementation has shown so far: a violation turns the result line into "FAIL …" at the very step where it appears.
 func exec(line string) string {
-	return vx.Guard(func() string { return exec1(line) })
+	return vx.Guard(func() string {
+		out := exec1(line)
+		switch strings.Fields(line + " .")[0] {
+		case "get", "aget", "val", "issue", "arrive":
+			if w != nil && out != "bad-op" {
+				if c := w.check(); c != "ok" {
+					return c + " | " + out
+				}
+			}
+		}
+		return out
+	})
 }
 
 func exec1(line string) string {
